@@ -1317,6 +1317,12 @@ export class TupleRuntype extends BaseRuntype {
           popPath(ctx);
         }
       }
+    } else {
+      for (let i = idx; i < input.length; i++) {
+        pushPath(ctx, `[${i}]`);
+        acc.push(...buildError(ctx, "expected tuple to end", input[i]));
+        popPath(ctx);
+      }
     }
 
     return acc;
